@@ -105,30 +105,48 @@ def opOfJ (j : J) : Option Op := do
 
 def bad (msg : String) : J := .obj [("bad_request", .str msg)]
 
-def runSteps : T → List J → Option (List J)
+/-- `chosen` = the harness reads derived facts only where and when a `read` step says so. -/
+def runSteps (chosen : Bool) : T → List J → Option (List J)
   | _, [] => some []
-  | t, s :: rest => do
-    let recv ← (s.get? "recv").bind pathOfJ
-    let notify := (s.getBool? "notify").getD true
-    let op ← (s.get? "call").bind opOfJ
-    let out := step t recv notify op
-    let r := readAll [] out.tree
-    let reads := r.2.2.filter (fun (p, _) => match getAt out.tree p with
-      | some n => objFree n
-      | none => false)
-    let more ← runSteps r.1 rest
-    pure (.obj [("ok", .bool out.ok), ("events", .arr (out.events.map eventToJ)),
-                ("reads", .arr (reads.map fun (p, m) => .arr [pathToJ p, leafMapToJ m])),
-                ("value", valueToJ out.tree)] :: more)
+  | t, s :: rest =>
+    match s.get? "read" with
+    | some rd => do
+      let paths ← rd.asArr? >>= (·.mapM pathOfJ)
+      let (t', reads) := paths.foldl (fun (acc : T × List J) p =>
+        let r := readAt acc.1 p
+        match r.2, getAt acc.1 p with
+        | some m, some n => if objFree n then (r.1, acc.2 ++ [.arr [pathToJ p, leafMapToJ m]]) else (r.1, acc.2)
+        | _, _ => (r.1, acc.2)) (t, [])
+      let more ← runSteps chosen t' rest
+      pure (.obj [("ok", .bool true), ("events", .arr []), ("reads", .arr reads), ("value", valueToJ t')] :: more)
+    | none => do
+      let recv ← (s.get? "recv").bind pathOfJ
+      let notify := (s.getBool? "notify").getD true
+      let op ← (s.get? "call").bind opOfJ
+      let out := step t recv notify op
+      if chosen then
+        let more ← runSteps chosen out.tree rest
+        pure (.obj [("ok", .bool out.ok), ("events", .arr (out.events.map eventToJ)),
+                    ("reads", .arr []), ("value", valueToJ out.tree)] :: more)
+      else
+        let r := readAll [] out.tree
+        let reads := r.2.2.filter (fun (p, _) => match getAt out.tree p with
+          | some n => objFree n
+          | none => false)
+        let more ← runSteps chosen r.1 rest
+        pure (.obj [("ok", .bool out.ok), ("events", .arr (out.events.map eventToJ)),
+                    ("reads", .arr (reads.map fun (p, m) => .arr [pathToJ p, leafMapToJ m])),
+                    ("value", valueToJ out.tree)] :: more)
 
 def handle (j : J) : J :=
   match j.getStr? "op" with
   | some "run" =>
     match (j.get? "tree").bind treeOfJ, j.getArr? "steps" with
     | some t, some steps =>
-      -- the harness reads every derived fact once before the first step
-      let t0 := (readAll [] t).1
-      match runSteps t0 steps with
+      -- unless it chooses its reads, the harness reads every derived fact once before the first step
+      let chosen := j.getStr? "reads" == some "chosen"
+      let t0 := if chosen then t else (readAll [] t).1
+      match runSteps chosen t0 steps with
       | some outs => .obj [("steps", .arr outs)]
       | none => bad "run: step"
     | _, _ => bad "run"
